@@ -38,7 +38,7 @@ import (
 
 func TestVerifC10CPUSetPolicy(t *testing.T) {
 	kit.Run(t, kit.Config{Property: "C10", Unit: "cpuset-policy", Quick: 30000, Thorough: 1000000,
-		Rule: "processor list of 1-128 CPUs (SMT 1/2/4, 1-4 NUMA nodes, 1-2 sockets, dense / sibling-sparse / offset ids, offline CPUs), either complete or an order-preserving sub-list (as adjustByCPUSet passes its pools), request in {1,2,n-1,n,n+1,random<=n,random>n}; result must be distinct, inside the list, not larger than the request and exactly the request whenever the list is long enough; distinct = (topology shape class, sub-list?, request class, outcome); non-trivial = sub-list with a broken core (a core that lost some but not all threads) or more than one NUMA node",
+		Rule: "processor list of 1-128 CPUs (5%: up to 512; SMT 1/2/4/8; 1/2/4/8 sockets; NUMA nodes nested in sockets, spanning sockets, interleaved over cores, sparse node/socket id spaces, and the (0,1)/(N,0) pair that collides in the selection's bucket index; dense / sibling-sparse / offset ids, offline CPUs), either complete or an order-preserving sub-list (as adjustByCPUSet passes its pools), request in {1,2,n-1,n,n+1,random<=n,random>n}; result must be distinct, inside the list, not larger than the request and exactly the request whenever the list is long enough; distinct = (topology shape class, sub-list?, request class, outcome); non-trivial = sub-list with a broken core (a core that lost some but not all threads) or more than one NUMA node",
 	}, func(c *kit.Case) {
 		r := c.R
 		tp := c10GenTopo(r)
@@ -125,7 +125,17 @@ func TestVerifC10CPUSetPolicy(t *testing.T) {
 		if broken {
 			c.Count("policy_broken_core_lists", 1)
 		}
-		c.Seen(tp.sockets, tp.numaPerSocket, tp.smt, tp.layout, tp.offline > 0, c10SizeClass(n), sub, cls, len(got) == req, broken)
+		coll := c10BucketCollisions(list)
+		if coll > 0 {
+			c.Count("policy_bucket_index_collisions", 1)
+			if n >= req && req > 2 {
+				c.Count("policy_bucket_index_collisions_served", 1)
+			}
+		}
+		if tp.sockets > 2 {
+			c.Count("policy_more_than_two_sockets", 1)
+		}
+		c.Seen(tp.sockets, tp.nodes, tp.arrange, tp.smt, tp.layout, tp.offline > 0, c10SizeClass(n), sub, cls, len(got) == req, broken, coll > 0)
 		if c.K < 2 {
 			c.Sample(map[string]any{"topology": tp.shape(), "list": c10Ranges(c10IDs(list)), "request": req, "result": got})
 		}
@@ -177,16 +187,27 @@ type c10EPod struct {
 	qos  apiext.QoSClass
 	cpus []int // cpuset annotation ("" when empty)
 	str  string
+	// hostile-but-legal object shapes that must not matter
+	rawLabel string // a QoS label value koordinator does not know (treated as no label)
+	numaOnly bool   // resource status carries NUMA resources but no cpuset (BE pods under the BE CPU manager)
+	nilAnno  bool   // no annotations map at all
 }
 
 func c10EPodObj(p c10EPod) *corev1.Pod {
 	pod := &corev1.Pod{ObjectMeta: metav1.ObjectMeta{Name: p.name, Namespace: "ns", UID: types.UID(p.name), Labels: map[string]string{}, Annotations: map[string]string{}}}
 	if p.qos != apiext.QoSNone {
 		pod.Labels[apiext.LabelPodQoS] = string(p.qos)
+	} else if p.rawLabel != "" {
+		pod.Labels[apiext.LabelPodQoS] = p.rawLabel
 	}
 	if p.str != "" {
 		b, _ := json.Marshal(apiext.ResourceStatus{CPUSet: p.str})
 		pod.Annotations[apiext.AnnotationResourceStatus] = string(b)
+	} else if p.numaOnly {
+		b, _ := json.Marshal(apiext.ResourceStatus{NUMANodeResources: []apiext.NUMANodeResource{{Node: 0, Resources: corev1.ResourceList{apiext.BatchCPU: resource.MustParse("1000")}}}})
+		pod.Annotations[apiext.AnnotationResourceStatus] = string(b)
+	} else if p.nilAnno {
+		pod.Annotations = nil
 	}
 	rl := corev1.ResourceList{corev1.ResourceCPU: *resource.NewQuantity(int64(c10Max(1, len(p.cpus))), resource.DecimalSI)}
 	pod.Spec.Containers = []corev1.Container{{Name: "c", Resources: corev1.ResourceRequirements{Requests: rl, Limits: rl}}}
@@ -228,7 +249,7 @@ func c10GenPods(r *kit.Rand, ids []int, lseShare, lsrShare int) (pods []c10EPod,
 	}
 	chop(lse, apiext.QoSLSE, "lse")
 	chop(lsr, apiext.QoSLSR, "lsr")
-	nOther := r.Range(0, 4)
+	nOther := kit.Pick(r, []int{0, 1, 2, 3, 4, 4, 16})
 	notLSE := append(append([]int(nil), lsr...), rest...)
 	for i := 0; i < nOther; i++ {
 		p := c10EPod{name: fmt.Sprintf("other-%d", i), qos: kit.Pick(r, []apiext.QoSClass{apiext.QoSLS, apiext.QoSLS, apiext.QoSBE, apiext.QoSBE, apiext.QoSSystem, apiext.QoSNone})}
@@ -240,6 +261,16 @@ func c10GenPods(r *kit.Rand, ids []int, lseShare, lsrShare int) (pods []c10EPod,
 			}
 			sort.Ints(p.cpus)
 			p.str = c10Format(r, p.cpus)
+		} else {
+			switch r.Intn(6) {
+			case 0:
+				p.numaOnly = true
+			case 1:
+				p.nilAnno = true
+			}
+		}
+		if p.qos == apiext.QoSNone && r.Pct(30) {
+			p.rawLabel = kit.Pick(r, []string{"lse", "Lsr", "best-effort", "x"})
 		}
 		pods = append(pods, p)
 	}
@@ -339,7 +370,7 @@ func TestVerifC10End2End(t *testing.T) {
 	}).AnyTimes()
 
 	kit.Run(t, kit.Config{Property: "C10", Unit: "end2end", Quick: 4000, Thorough: 100000,
-		Rule: "2-5 suppression rounds of the real adjustByCPUSet on one node: processor list of 1-128 CPUs, BE cgroup tree (root, 0-3 pods, 0-2 containers each) under a temp cgroup-v1 root holding the previous BE cpuset, pods of all QoS classes with cpuset annotations (LSE exclusive, LSR disjoint), node-reserved CPUs and system-QoS CPUs (exclusive / not) from none to everything, kubelet policy none/static, budget boundary-biased (<0, 0, <2, 2, around the eligible count, above it, above the machine); 6 of every 32 cases force a degenerate family (all reserved / all system-exclusive / all LSE / jointly everything / budget<2 / budget>free); distinct = (size class, SMT, policy, which protections present, eligible class, budget vs eligible, pools, outcome); non-trivial = a round in which some but not all CPUs were protected and a set was written",
+		Rule: "2-8 suppression rounds of the real adjustByCPUSet on one node: processor list of 1-128 CPUs (5%: up to 512; 1-8 sockets, NUMA nested/spanning/interleaved/sparse ids/bucket-index collision), BE cgroup tree (root, 0-8 pods, 0-4 containers each, children equal to / narrower than the root, on v2 also empty) under a temp cgroup root (v1 75%, v2 25% with the harness deriving cpuset.cpus.effective between rounds) holding the previous BE cpuset, pods of all QoS classes with cpuset annotations (LSE exclusive, LSR disjoint; unknown label values, NUMA-only resource status, nil annotations), reservation apply policies, 2% rounds without topology object, node-reserved CPUs and system-QoS CPUs (exclusive / not) from none to everything, kubelet policy none/static, budget boundary-biased (<0, 0, <2, 2, around the eligible count, above it, above the machine); 6 of every 32 cases force a degenerate family (all reserved / all system-exclusive / all LSE / jointly everything / budget<2 / budget>free); distinct = (size class, SMT, policy, which protections present, eligible class, budget vs eligible, pools, outcome); non-trivial = a round in which some but not all CPUs were protected and a set was written",
 	}, func(c *kit.Case) {
 		r := c.R
 		tp := c10GenTopo(r)
@@ -351,7 +382,16 @@ func TestVerifC10End2End(t *testing.T) {
 		system.Conf.CgroupRootDir = root
 		defer os.RemoveAll(root)
 		beDir := koordletutil.GetPodQoSRelativePath(corev1.PodQOSBestEffort)
-		cpusetFile := func(dir string) string { return system.GetCgroupFilePath(dir, system.CPUSet) }
+		// cgroup version: v1 mostly; on v2 the code writes cpuset.cpus and reads cpuset.cpus.effective,
+		// which the kernel derives - the harness plays the kernel between rounds (syncEffective)
+		v2 := r.Pct(25)
+		system.UseCgroupsV2.Store(v2)
+		defer system.UseCgroupsV2.Store(false)
+		cpusetRes, err := system.GetCgroupResource(system.CPUSetCPUSName)
+		if err != nil {
+			c.Harness("cpuset resource: %v", err)
+		}
+		cpusetFile := func(dir string) string { return cpusetRes.Path(dir) }
 
 		// previous BE cpuset: everything (kubelet's default), or what an earlier round left
 		var old []int
@@ -369,14 +409,14 @@ func TestVerifC10End2End(t *testing.T) {
 		static := r.Pct(20)
 		var dirs, podDirs, ctrDirs []string
 		dirs = append(dirs, beDir)
-		npods := r.Range(0, 3)
+		npods := kit.Pick(r, []int{0, 1, 1, 2, 2, 3, 3, 8})
 		if static && npods == 0 {
 			npods = 1
 		}
 		for i := 0; i < npods; i++ {
 			pd := filepath.Join(beDir, fmt.Sprintf("kubepods-besteffort-pod%d.slice", i))
 			podDirs = append(podDirs, pd)
-			nc := r.Range(0, 2)
+			nc := kit.Pick(r, []int{0, 1, 1, 2, 2, 4})
 			if static && i == 0 && nc == 0 {
 				nc = 1
 			}
@@ -389,6 +429,23 @@ func TestVerifC10End2End(t *testing.T) {
 		for _, d := range dirs {
 			c10WriteFile(c, cpusetFile(d), oldStr)
 		}
+		if !static {
+			// a child cgroup may hold less than its parent (a rewrite interrupted by a restart, a
+			// container pinned by its runtime); on v2 it may hold nothing (= inherit)
+			for _, d := range append(append([]string(nil), podDirs...), ctrDirs...) {
+				switch x := r.Intn(100); {
+				case x < 15:
+					sub := c10Subset(r, old, 2)
+					if len(sub) == 0 {
+						sub = old[:1]
+					}
+					c10WriteFile(c, cpusetFile(d), c10Format(r, sub))
+					c.Count("child_cgroups_narrower_than_root", 1)
+				case x < 30 && v2:
+					c10WriteFile(c, cpusetFile(d), "")
+				}
+			}
+		}
 		if static {
 			// under the static policy the suppressed set lives in the containers; root and pod
 			// directories hold the whole machine
@@ -396,8 +453,36 @@ func TestVerifC10End2End(t *testing.T) {
 				c10WriteFile(c, cpusetFile(d), c10Ranges(ids))
 			}
 		}
+		syncEffective := func() {
+			if !v2 {
+				return
+			}
+			effRes, err := system.GetCgroupResource(system.CPUSetCPUSEffectiveName)
+			if err != nil {
+				c.Harness("cpuset.cpus.effective resource: %v", err)
+			}
+			eff := map[string]string{}
+			for _, d := range dirs { // parents come before children
+				v := c10ReadFile(c, cpusetFile(d))
+				if v == "" {
+					v = eff[filepath.Dir(d)]
+				}
+				eff[d] = v
+				c10WriteFile(c, effRes.Path(d), v)
+			}
+		}
+		syncEffective()
 		c.Op("topology %s n=%d procs=%s", tp.shape(), n, c10ProcsStr(tp.procs))
-		c.Op("be tree: pods=%d containers=%d previous cpuset=%q static=%v", len(podDirs), len(ctrDirs), oldStr, static)
+		c.Op("be tree: cgroup-v2=%v pods=%d containers=%d previous cpuset=%q static=%v", v2, len(podDirs), len(ctrDirs), oldStr, static)
+		if v2 {
+			c.Count("cases_cgroup_v2", 1)
+		}
+		if c10BucketCollisions(tp.procs) > 0 {
+			c.Count("cases_bucket_index_collision", 1)
+		}
+		if tp.sockets > 2 {
+			c.Count("cases_more_than_two_sockets", 1)
+		}
 
 		rec := &c10RecExec{inner: &resourceexecutor.ResourceUpdateExecutorImpl{Config: resourceexecutor.NewDefaultConfig(), ResourceCache: cache.NewCacheDefault()}}
 		cs := &CPUSuppress{statesInformer: si, metricCache: mc, executor: rec, cgroupReader: resourceexecutor.NewCgroupReader(), suppressPolicyStatuses: map[string]suppressPolicyStatus{}}
@@ -453,7 +538,7 @@ func TestVerifC10End2End(t *testing.T) {
 			rd.reserved = append(rd.reserved, maxID+r.Range(1, 9))
 		}
 
-		rounds := r.Range(2, 5)
+		rounds := kit.Pick(r, []int{2, 2, 3, 3, 4, 4, 5, 5, 5, 8})
 		wrote, partialProtection := false, false
 		for k := 0; k < rounds; k++ {
 			if k > 0 { // the node changes between rounds: pods come and go, rarely the node settings
@@ -523,7 +608,11 @@ func TestVerifC10End2End(t *testing.T) {
 			}
 			anno := map[string]string{}
 			if len(rd.reserved) > 0 {
-				b, _ := json.Marshal(apiext.NodeReservation{ReservedCPUs: c10Format(r, rd.reserved)})
+				nr := apiext.NodeReservation{ReservedCPUs: c10Format(r, rd.reserved), ApplyPolicy: kit.Pick(r, []apiext.NodeReservationApplyPolicy{"", "", apiext.NodeReservationApplyPolicyDefault, apiext.NodeReservationApplyPolicyReservedCPUsOnly})}
+				if r.Pct(15) { // an amount next to the CPU list (the list names the CPUs)
+					nr.Resources = corev1.ResourceList{corev1.ResourceCPU: resource.MustParse("1500m")}
+				}
+				b, _ := json.Marshal(nr)
 				anno[apiext.AnnotationNodeReservation] = string(b)
 			} else if r.Pct(20) { // reservation as an amount: names no CPU
 				b, _ := json.Marshal(apiext.NodeReservation{Resources: corev1.ResourceList{corev1.ResourceCPU: resource.MustParse("2")}})
@@ -537,11 +626,18 @@ func TestVerifC10End2End(t *testing.T) {
 				pol := apiext.KubeletCPUManagerPolicy{Policy: apiext.KubeletCPUManagerPolicyNone}
 				if rd.static {
 					pol.Policy = apiext.KubeletCPUManagerPolicyStatic
+					if r.Pct(30) {
+						pol.Options = map[string]string{apiext.KubeletCPUManagerPolicyFullPCPUsOnlyOption: "true"}
+					}
 				}
 				b, _ := json.Marshal(pol)
 				anno[apiext.AnnotationKubeletCPUManagerPolicy] = string(b)
 			}
 			curTopo = &topov1alpha1.NodeResourceTopology{ObjectMeta: metav1.ObjectMeta{Name: "n0", Annotations: anno}}
+			noTopo := family < 0 && r.Pct(2) // the node's topology object has not been reported (yet)
+			if noTopo {
+				curTopo = nil
+			}
 
 			// pre-state
 			rootBefore, err := c10ParseList(c10ReadFile(c, cpusetFile(beDir)))
@@ -578,6 +674,17 @@ func TestVerifC10End2End(t *testing.T) {
 			}
 			rec.intents = rec.intents[:0]
 			cs.adjustByCPUSet(resource.NewMilliQuantity(bud, resource.DecimalSI), curInfo)
+			syncEffective()
+			if noTopo {
+				// reservation and system-QoS settings are unknown to the agent: the statement does
+				// not say what is due; only "does not crash" is claimed
+				c.Count("rounds_no_topology", 1)
+				if len(rec.intents) > 0 {
+					c.Count("rounds_no_topology_written", 1)
+				}
+				c.Op("round %d -> no topology object, %d write requests", k, len(rec.intents))
+				continue
+			}
 
 			intended := map[string]string{}
 			for _, it := range rec.intents {
@@ -642,6 +749,15 @@ func TestVerifC10End2End(t *testing.T) {
 							c.Fail("C10/end2end/not-exact", "round %d: %d eligible CPUs exist, min(max(2,ceil(budget)), previous+step)=%d CPUs were due, the BE cpuset has %d", k, e, req, size)
 						}
 						c.Count("rounds_exact", 1)
+					if v2 {
+						c.Count("rounds_exact_cgroup_v2", 1)
+					}
+					if n > 128 {
+						c.Count("rounds_exact_more_than_128_cpus", 1)
+					}
+					if c10BucketCollisions(tp.procs) > 0 {
+						c.Count("rounds_exact_bucket_index_collision", 1)
+					}
 					} else {
 						outcome = "written-partial"
 						c.Count("rounds_written_with_too_few_eligible", 1)
